@@ -81,8 +81,9 @@ class Gen:
         if c < 0.55: return self.s_arith()
         if c < 0.70: return self.s_stackop()
         if c < 0.80: return self.s_cache()
-        if c < 0.92 and depth < self.max_depth: return self.s_control(depth)
-        if c < 0.97: return self.s_misc()
+        if c < 0.90 and depth < self.max_depth: return self.s_control(depth)
+        if c < 0.93 and depth < self.max_depth: return self.s_recursive(depth)
+        if c < 0.975: return self.s_misc()
         return self.s_raw()
 
     def s_push(self):
@@ -217,6 +218,80 @@ class Gen:
             b = self.block(depth, 0, 3)
             return push(b) + op('EVAL')
         return op('RETURN')
+
+    def s_recursive(self, depth):
+        """recursion / definition-scoping patterns: re-entered definitions with TRY around the inner call,
+        mutual recursion, counters, definitions made inside bodies, RETURN inside CALL inside LOOP/IF"""
+        r = self.r
+        h, h2 = r.sample([0, 1, 2, 3], 2)
+        H, H2 = u8(h), u8(h2)
+        small = lambda: self.block(depth + 1, 0, 2)
+        wrap_try = lambda body, exc=b'': op('TRY_EXCEPT') + u16(len(body)) + body + u16(len(exc)) + exc
+        defn = lambda hh, body: op('DEF') + hh + u16(len(body)) + body
+        call = lambda hh: op('CALL') + hh
+        k = r.randrange(9)
+        if k == 0:
+            # outer activation catches the raise of the inner one, then continues
+            guard = r.choice([op('VERIFY'), op('POP0'), pushi(1) + op('ADD_INTS') + u8(2) + op('VERIFY')])
+            inner = r.choice([op('FALSE'), b'', pushi(0)]) + call(H)
+            tail = r.choice([push(b'A'), op('TRUE'), small()])
+            body = guard + wrap_try(inner, r.choice([b'', small()])) + tail
+            return defn(H, body) + r.choice([op('TRUE'), pushi(1)]) + call(H) + small()
+        if k == 1:
+            body = pushi(1) + op('ADD_INTS') + u8(2) + wrap_try(call(H), r.choice([b'', call(H)]))
+            return defn(H, body) + pushi(0) + call(H)
+        if k == 2:
+            # counter recursion that stops itself
+            n = r.choice([1, 2, 3, 9])
+            body = op('DUP') + pushi(0) + op('EQUAL') + op('IF') + u16(1) + op('RETURN') + pushi(-1) + op('ADD_INTS') + u8(2) + call(H)
+            if r.random() < 0.5:
+                body = wrap_try(body, b'')
+            return defn(H, body) + pushi(n) + call(H) + small()
+        if k == 3:
+            # mutual recursion with a TRY in one of them
+            b1 = small() + call(H2)
+            b2 = wrap_try(r.choice([op('FALSE') + op('VERIFY'), call(H), b'']), small()) + small()
+            return defn(H, b1) + defn(H2, b2) + call(H) + small()
+        if k == 4:
+            # definitions made inside bodies: which table sees them?
+            inner_def = defn(H2, r.choice([op('TRUE'), push(b'Z')]))
+            where = r.choice(['def', 'if', 'try', 'loop', 'eval'])
+            if where == 'def':
+                pre = defn(H, inner_def) + call(H)
+            elif where == 'if':
+                pre = op('TRUE') + op('IF') + u16(len(inner_def)) + inner_def
+            elif where == 'try':
+                pre = wrap_try(inner_def)
+            elif where == 'loop':
+                b = inner_def + op('FALSE')
+                pre = op('TRUE') + op('LOOP') + u16(len(b)) + b + op('POP0')
+            else:
+                pre = push(inner_def) + op('EVAL')
+            use = r.choice([call(H2), op('TRUE') + op('IF') + u16(2) + call(H2), wrap_try(call(H2), push(b'E'))])
+            return pre + use
+        if k == 5:
+            # RETURN inside CALL inside LOOP / IF / EVAL: who ends?
+            body = r.choice([op('RETURN'), op('TRUE') + op('IF') + u16(1) + op('RETURN') + push(b'n'), wrap_try(op('RETURN')) + push(b'n')])
+            inner = defn(H, body + push(b'x')) + call(H) + push(b'y')
+            ctx = r.choice(['loop', 'if', 'eval', 'top'])
+            if ctx == 'loop':
+                b = inner + op('FALSE')
+                return op('TRUE') + op('LOOP') + u16(len(b)) + b + push(b'z')
+            if ctx == 'if':
+                return op('TRUE') + op('IF') + u16(len(inner)) + inner + push(b'z')
+            if ctx == 'eval':
+                return push(inner) + op('EVAL') + push(b'z')
+            return inner + push(b'z')
+        if k == 6:
+            # call budget: recursion until the limit, inside / outside TRY, EVAL recursion
+            body = r.choice([call(H), push(b'') + op('POP0') + call(H)])
+            return defn(H, body) + r.choice([call(H), wrap_try(call(H), push(b'L'))]) + small()
+        if k == 7:
+            # EVAL recursion via DUP EVAL
+            s = op('DUP') + op('EVAL')
+            return push(s) + r.choice([op('DUP') + op('EVAL'), wrap_try(op('DUP') + op('EVAL'), push(b'L'))])
+        # redefinition while running / after use
+        return defn(H, push(b'1')) + call(H) + defn(H, push(b'2')) + call(H) + defn(H, defn(H, push(b'3')) + call(H)) + call(H) + call(H)
 
     def s_misc(self):
         r = self.r
